@@ -196,6 +196,15 @@ impl BlteFile {
             // Single chunk
             Self::single_chunk(data.to_vec(), mode)
         } else {
+            // A chunk size of 0 can never consume non-empty data
+            if chunk_size == 0 {
+                return Err(BlteError::InvalidChunkSize {
+                    size: 0,
+                    min: 1,
+                    max: usize::MAX,
+                });
+            }
+
             // Multi-chunk
             let mut chunks = Vec::new();
             let mut offset = 0;
